@@ -135,8 +135,12 @@ func (st *Stack) reloadOnce(names []string, reuseOpen bool) error {
 	}
 
 	var newTables []*Reader
+
+	// On failure, close what was opened here; readers taken over from
+	// the current stack stay open, as the stack keeps using them.
+	var opened []*Reader
 	defer func() {
-		for _, t := range newTables {
+		for _, t := range opened {
 			t.Close()
 		}
 	}()
@@ -155,13 +159,14 @@ func (st *Stack) reloadOnce(names []string, reuseOpen bool) error {
 			if err != nil {
 				return fmt.Errorf("NewReader(%s): %v", name, err)
 			}
+			opened = append(opened, rd)
 		}
 		newTables = append(newTables, rd)
 	}
 
 	// success. Swap.
 	st.stack = newTables
-	newTables = nil
+	opened = nil
 	for _, old := range cur {
 		old.Close()
 
